@@ -23,7 +23,7 @@
 (*          sequence in arrival order; any element may be delivered next)  *)
 (*   R(k)  RemoveFailedLocalRecord -> remove      (write failed)           *)
 (***************************************************************************)
-EXTENDS Naturals, FiniteSets, Sequences
+EXTENDS Naturals, FiniteSets, Sequences, IOUtils
 
 CONSTANTS NK,          \* keys 1..NK by distance rank
           NV,          \* value ids 1..NV
@@ -46,8 +46,9 @@ FileOf(t) == IF t.kind = "F" THEN 0 ELSE t.k      \* 0 = the metrics file
 \*   disk    [Key -> value id | 0]  record files           tasks   pending background bodies, spawn order
 \*   notes   pending completion notes                      range   responsible range (0 unset)
 \*   pay     payments received                             mfile   count in the metrics file (0 if none)
+\*   ty      [Key -> value id | 0]  the value whose record type the index lists for the key (0: not listed)
 Init0 == [idx |-> {}, byDist |-> {}, far |-> 0, cache |-> <<>>, disk |-> [k \in Key |-> None],
-          tasks |-> <<>>, notes |-> <<>>, range |-> 0, pay |-> 0, mfile |-> 0]
+          tasks |-> <<>>, notes |-> <<>>, range |-> 0, pay |-> 0, mfile |-> 0, ty |-> [k \in Key |-> None]]
 
 Res(s, res) == [st |-> s, res |-> res, out |-> 0]
 ResOut(s, out) == [st |-> s, res |-> "Ok", out |-> out]
@@ -72,6 +73,7 @@ RemoveKey(s, k) ==
     IN [s EXCEPT !.idx = idx2, !.byDist = byd2,
                  !.cache = CacheRemove(s.cache, k),
                  !.far = IF s.far = k THEN TrueFarthest(idx2) ELSE s.far,
+                 !.ty = [s.ty EXCEPT ![k] = None],
                  !.tasks = Append(s.tasks, [kind |-> "D", k |-> k])]
 
 Remove(s, k) == {Res(RemoveKey(s, k), "Ok")}
@@ -110,6 +112,7 @@ HandleNote(s, j) ==
         s1 == [s EXCEPT !.notes = SubSeq(s.notes, 1, j - 1) \o SubSeq(s.notes, j + 1, Len(s.notes))] IN
     IF n.kind = "A"
     THEN {Res([s1 EXCEPT !.idx = s1.idx \cup {n.k}, !.byDist = s1.byDist \cup {n.k},
+                         !.ty = [s1.ty EXCEPT ![n.k] = n.v],      \* the note carries the record type of the value written
                          !.far = IF s1.far = 0 \/ n.k > s1.far THEN n.k ELSE s1.far], "Ok")}
     ELSE {Res(RemoveKey(s1, n.k), "Ok")}
 
@@ -119,6 +122,8 @@ GetVal(s, k) == IF k \in CacheKeys(s.cache) THEN CacheVal(s.cache, k)
                 ELSE IF k \in s.idx THEN s.disk[k] ELSE None
 Get(s, k) == {ResOut(s, GetVal(s, k))}
 Readback(s) == [k \in Key |-> GetVal(s, k)]
+\* the type listed for k is the type of the value served for k (vacuous when k is not listed or nothing is served)
+TypeOk(s) == [k \in Key |-> (k \in s.idx /\ GetVal(s, k) # None) => s.ty[k] = GetVal(s, k)]
 
 \* ------------------------------------------------------------ range, clean-up, payments, quotes
 SetRange(s, r) == {Res([s EXCEPT !.range = r], "Ok")}
@@ -133,8 +138,9 @@ Cleanup(s, thr) == IF Cardinality(s.idx) < thr \/ s.range = 0 THEN {Res(s, "Ok")
 
 PaymentReceived(s) == {Res([s EXCEPT !.pay = s.pay + 1, !.tasks = Append(s.tasks, [kind |-> "F", c |-> s.pay + 1])], "Ok")}
 
-Quote(s) == {ResOut(s, [close |-> IF s.range = 0 THEN Cardinality(s.idx) ELSE Cardinality({k \in s.byDist : k < s.range}),
-                     max |-> MaxRecords, pay |-> s.pay])}
+\* k: the key the quote is asked for; stored: "the record at k is already stored locally"
+Quote(s, k) == {ResOut(s, [close |-> IF s.range = 0 THEN Cardinality(s.idx) ELSE Cardinality({j \in s.byDist : j < s.range}),
+                        max |-> MaxRecords, pay |-> s.pay, stored |-> (k \in s.idx)])}
 
 \* ------------------------------------------------------------ crash and restart (C02)
 \* The process stops: pending bodies and notes are lost.  On restart with the same identity the
@@ -146,11 +152,15 @@ Restart(s, tk) ==
     LET disk2 == [k \in Key |-> IF k = tk THEN None ELSE s.disk[k]]
         idx2 == {k \in Key : disk2[k] # None} IN
     {Res([Init0 EXCEPT !.idx = idx2, !.byDist = idx2, !.far = TrueFarthest(idx2), !.disk = disk2,
+                       !.ty = disk2,                               \* the start-up scan types each record from its own bytes
                        !.pay = s.mfile, !.mfile = s.mfile], "Ok")}
 
 (***************************************************************************)
 (* Steps and clauses.  A step x = [ev, s, r, g, g2, + args] where g / g2   *)
-(* are the ghost records before / after the step:                          *)
+(* are the ghost records before / after the step; x.rb the read-back of    *)
+(* every key after the step, x.has / x.addrs the keys contains() /         *)
+(* record_addresses() report, x.tok[k] "the type listed for k is the type  *)
+(* of the value served for k":                                             *)
 (*   validated[k]  values ever handed to put_verified for k                *)
 (*   last[k]       last key-affecting event: [kind |-> "none"|"put"|"removed", v]*)
 (*   durable[k]    C02: value of the latest completed file write of k that *)
@@ -160,7 +170,10 @@ Restart(s, tk) ==
 (***************************************************************************)
 Ghost0 == [validated |-> [k \in Key |-> {}], last |-> [k \in Key |-> [kind |-> "none", v |-> 0]],
            durable |-> [k \in Key |-> 0], gone |-> [k \in Key |-> FALSE], restarted |-> FALSE, paid |-> 0,
-           racy |-> [k \in Key |-> FALSE], lagOnly |-> TRUE]
+           racy |-> [k \in Key |-> FALSE], lagOnly |-> TRUE,
+           \* lastW[k]: value of the latest completed file write of k (0 none);  staleNote[k]: the completion note
+           \* delivered last for k was not the note of that latest write (notes of two writes of k overtook each other)
+           lastW |-> [k \in Key |-> 0], staleNote |-> [k \in Key |-> FALSE]]
 
 Settled(s) == s.tasks = <<>> /\ s.notes = <<>>
 InFlightWrites(s) == {i \in 1..Len(s.tasks) : s.tasks[i].kind = "W"}
@@ -173,14 +186,48 @@ InFlightKey(s, k) == \/ \E j \in 1..Len(s.tasks) : s.tasks[j].kind = "W" /\ s.ta
 \* keys that leave the index in this step
 Lost(x) == x.s.idx \ x.r.st.idx
 
+\* "capacity plus the writes still in flight": a store that counted its in-flight writes against the capacity
+\* (i.e. one without known finding C10-capacity-lagging-index) would be at capacity as soon as held + in-flight
+\* keys reach MaxRecords; the present code only when the index does.  Both are allowed to evict / refuse from
+\* that point on; NEITHER may do so earlier.
+InFlightKeys(s) == {k \in Key : InFlightKey(s, k)}
+AtCapacity(s) == Cardinality(s.idx \cup InFlightKeys(s)) >= MaxRecords
+
+\* switch for the scenario class "completion notes of two writes of one key delivered in the reverse order of the
+\* writes, record type observed" (see W_C01_ListedType); off unless VERIF_ENABLE_STALETYPE=1
+StaleTypeOn == IF "VERIF_ENABLE_STALETYPE" \in DOMAIN IOEnv THEN IOEnv.VERIF_ENABLE_STALETYPE = "1" ELSE FALSE
+
 \* Each clause is given as the set of its counter-witnesses on step x (keys, or 0 for clauses that
 \* are not per key); the clause holds iff the set is empty.
+
+Only0(cond) == IF cond THEN {} ELSE {0}
 
 \* ---- C01
 \* "only ever returns, for a key, bytes that were handed to it as a validated record for that key"
 W_C01_GetSound(x) ==
          {k \in Key : x.ev = "Get" /\ k = x.k /\ ~(x.r.out = None \/ x.r.out \in x.g2.validated[k])}
     \cup {k \in Key : ~(x.rb[k] = None \/ x.rb[k] \in x.g2.validated[k])}
+
+\* store calls do not crash (a panic inside the swarm driver's event loop takes the node down: nothing is
+\* "readable" afterwards); `Panic` is the result the driver logs for a call that unwound
+W_C01_NoCrash(x) == Only0(x.r.res # "Panic")
+
+\* "listed": every way of asking the store what it holds gives the index -- contains() / RecordStoreHasKey (x.has),
+\* record_addresses() / GetAllLocalRecordAddresses (x.addrs; 999 = a key nobody put), and the "already stored"
+\* flag returned with the quoting metrics for the key asked
+W_C01_ListedViewsAgree(x) ==
+         {k \in Key : (k \in x.has) # (k \in x.r.st.idx) \/ (k \in x.addrs) # (k \in x.r.st.idx)}
+    \cup (IF (x.has \cup x.addrs) \ Key # {} THEN {0} ELSE {})
+    \cup (IF x.ev = "Quote" /\ x.r.out.stored # (x.k \in x.s.idx) THEN {x.k} ELSE {})
+
+\* "readable exactly as written ... listed": in a settled state (also right after a restart) the record type the
+\* store lists for a key is the type of the value it serves for that key (x.tok[k]; on traces: Chunk iff the bytes
+\* served are a chunk, a content hash equals the hash of the bytes served).
+\* Not judged while VERIF_ENABLE_STALETYPE is off: keys whose last delivered completion note was overtaken (ghost
+\* staleNote) -- the unchanged code then lists the type of the OLDER value (suspected defect, see the area notes).
+W_C01_ListedType(x) ==
+    IF ~Settled(x.r.st) THEN {} ELSE
+    {k \in Key : k \in x.r.st.idx /\ ~x.tok[k] /\ (StaleTypeOn \/ ~x.g2.staleNote[k])}
 
 \* "once its background disk work has settled, every accepted validated write is readable exactly as
 \*  written (the most recent one per key), and a removed key is no longer readable or listed"
@@ -205,7 +252,6 @@ W_C02_RemovalsStay(x) ==
                  /\ ~(x.rb[k] = None /\ k \notin x.r.st.idx)}
 
 \* ---- C10
-Only0(cond) == IF cond THEN {} ELSE {0}
 \* "never retains more records than its configured capacity plus the writes still in flight"
 W_C10_Capacity(x) ==
     Only0(Cardinality(x.r.st.idx) <= MaxRecords + Cardinality(InFlightWrites(x.r.st)) + Cardinality(PendingAdds(x.r.st)))
@@ -218,6 +264,25 @@ W_C10_Admission(x) ==
             LET f == TrueFarthest(x.s.idx) IN
             IF x.k < f THEN x.r.res = "Ok" /\ x.r.st.idx = x.s.idx \ {f}
                        ELSE x.r.res = "MaxRecords" /\ x.r.st.idx = x.s.idx)
+
+\* "accepts ... only if ..., evicting exactly that farthest record, and otherwise refuses it leaving the held set
+\*  unchanged" / "clean-up removes only records outside ...": the index loses a key ONLY by remove(k), by the failure
+\* report of a write of k, by an effective clean-up (keys outside the range), or by a put at capacity (the farthest
+\* record held).  Restart rebuilds the index from the files (C02).  Every other loss is spurious.
+\* (A put at capacity of a key that IS already held may evict the farthest record in the present code; C10 speaks
+\* about records "it does not yet hold" only, so that is allowed here and counted in the evidence: stats.heldEvict.)
+MayLose(x) ==
+    CASE x.ev = "Remove"      -> {x.k}
+      [] x.ev = "HandleNote"  -> IF x.s.notes[x.ni].kind = "R" THEN {x.s.notes[x.ni].k} ELSE {}
+      [] x.ev = "Cleanup"     -> IF x.s.range # 0 /\ Cardinality(x.s.idx) >= x.thr THEN {k \in x.s.idx : k >= x.s.range} ELSE {}
+      [] x.ev = "PutVerified" -> IF AtCapacity(x.s) /\ x.s.idx # {} THEN {TrueFarthest(x.s.idx)} ELSE {}
+      [] x.ev = "Restart"     -> Key
+      [] OTHER                -> {}
+W_C10_NoSpuriousLoss(x) == Lost(x) \ MayLose(x)
+
+\* below capacity -- even counting every write still in flight -- a validated record is accepted and nothing is lost
+W_C10_BelowCapacityAccepts(x) ==
+    Only0((x.ev = "PutVerified" /\ ~AtCapacity(x.s)) => (x.r.res = "Ok" /\ Lost(x) = {}))
 
 \* the three views of the held set agree
 W_C10_ViewsAgree(x) == Only0(x.r.st.byDist = x.r.st.idx /\ x.r.st.far = TrueFarthest(x.r.st.idx))
@@ -244,7 +309,8 @@ W_C10_PaySurvivesRestart(x) ==
     Only0((\E j \in 1..Len(x.s.tasks) : x.s.tasks[j].kind = "F") \/ x.r.st.pay = x.g.paid)
 
 GhostNext(g, x) ==
-    LET rm == Lost(x) \cup (IF x.ev = "Remove" THEN {x.k} ELSE {})
+    LET \* (a key that vanished from the index without a reason was NOT removed: its last accepted write stays due)
+        rm == (Lost(x) \ W_C10_NoSpuriousLoss(x)) \cup (IF x.ev = "Remove" THEN {x.k} ELSE {})
                      \* a failed write is reported back and the key forgotten, listed or not
                      \cup (IF x.ev = "HandleNote" /\ x.s.notes[x.ni].kind = "R" THEN {x.s.notes[x.ni].k} ELSE {})
         acc == x.ev = "PutVerified" /\ x.r.res = "Ok"
@@ -284,15 +350,26 @@ GhostNext(g, x) ==
                      /\ (x.r.st.idx \ x.s.idx) \subseteq
                            (IF x.ev = "HandleNote" /\ x.s.notes[x.ni].kind = "A" THEN {x.s.notes[x.ni].k}
                             ELSE IF x.ev = "Restart" THEN Key ELSE {}),
+         lastW |-> [k \in Key |-> IF x.ev = "Restart" THEN 0 ELSE IF t.kind = "W" /\ t.k = k THEN t.v ELSE g.lastW[k]],
+         staleNote |-> [k \in Key |-> IF x.ev = "Restart" THEN FALSE
+                                      ELSE IF x.ev = "HandleNote" /\ x.s.notes[x.ni].kind = "A" /\ x.s.notes[x.ni].k = k
+                                      THEN x.s.notes[x.ni].v # g.lastW[k]
+                                      ELSE g.staleNote[k]],
          \* payments received; a crash with an unwritten metrics flush may lose the tail (not claimed by C10)
          paid |-> IF x.ev = "PaymentReceived" THEN g.paid + 1
                   ELSE IF x.ev = "Restart" /\ \E j \in 1..Len(x.s.tasks) : x.s.tasks[j].kind = "F" THEN x.r.st.pay
                   ELSE g.paid ]
 
-Clauses == {"C01_GetSound", "C01_SettledReadback", "C02_NoCorruptAfterRestart", "C02_CompletedWritesDurable",
+Clauses == {"C01_NoCrash", "C01_ListedViewsAgree", "C01_ListedType", "C10_NoSpuriousLoss", "C10_BelowCapacityAccepts",
+            "C01_GetSound", "C01_SettledReadback", "C02_NoCorruptAfterRestart", "C02_CompletedWritesDurable",
             "C02_RemovalsStay", "C10_Capacity", "C10_Admission", "C10_ViewsAgree", "C10_CleanupOnlyOutside", "C10_PaySurvivesRestart",
             "C10_QuoteExact"}
 Witnesses(c, x) == CASE c = "C01_GetSound" -> W_C01_GetSound(x)
+                 [] c = "C01_NoCrash" -> W_C01_NoCrash(x)
+                 [] c = "C01_ListedViewsAgree" -> W_C01_ListedViewsAgree(x)
+                 [] c = "C01_ListedType" -> W_C01_ListedType(x)
+                 [] c = "C10_NoSpuriousLoss" -> W_C10_NoSpuriousLoss(x)
+                 [] c = "C10_BelowCapacityAccepts" -> W_C10_BelowCapacityAccepts(x)
                  [] c = "C01_SettledReadback" -> W_C01_SettledReadback(x)
                  [] c = "C02_NoCorruptAfterRestart" -> W_C02_NoCorruptAfterRestart(x)
                  [] c = "C02_CompletedWritesDurable" -> W_C02_CompletedWritesDurable(x)
@@ -339,6 +416,6 @@ ModelResults(x) ==
       [] x.ev = "SetRange"        -> SetRange(x.s, x.rg)
       [] x.ev = "Cleanup"         -> Cleanup(x.s, x.thr)
       [] x.ev = "PaymentReceived" -> PaymentReceived(x.s)
-      [] x.ev = "Quote"           -> Quote(x.s)
+      [] x.ev = "Quote"           -> Quote(x.s, x.k)
       [] x.ev = "Restart"         -> Restart(x.s, x.k)
 =============================================================================
